@@ -84,6 +84,10 @@ type Expression interface {
 }
 
 func (q *Query) populateGroupBy(columns []string, sch *schema) error {
+	// start from an empty list on every execution, so that a Query can be executed
+	// more than once (and on different indexes).
+	q.groupByFields = nil
+
 	for _, colName := range columns {
 		col, ok := sch.Columns[colName]
 		if !ok {
